@@ -422,3 +422,46 @@ func refillAliases(fn *ssa.Function) (out []refillAlias, nLoops int) {
 	}
 	return uniq, nLoops
 }
+
+// stringPieces collects the constant pieces (literals and Sprintf formats) that flow into a string value through
+// concatenation and control-flow merges, i.e. every literal that can precede the point where v is used.
+func stringPieces(v ssa.Value) []string {
+	var out []string
+	seen := map[ssa.Value]bool{}
+	var walk func(v ssa.Value, d int)
+	walk = func(v ssa.Value, d int) {
+		if v == nil || seen[v] || d > 60 {
+			return
+		}
+		seen[v] = true
+		switch x := v.(type) {
+		case *ssa.Const:
+			if s, ok := constString(x); ok {
+				out = append(out, s)
+			}
+		case *ssa.BinOp:
+			if x.Op == token.ADD {
+				walk(x.X, d+1)
+				walk(x.Y, d+1)
+			}
+		case *ssa.Phi:
+			for _, e := range x.Edges {
+				walk(e, d+1)
+			}
+		case *ssa.Call:
+			if objIs(calleeObj(&x.Call), "fmt", "", "Sprintf") && len(x.Call.Args) > 0 {
+				walk(x.Call.Args[0], d+1)
+			}
+		case *ssa.UnOp:
+			if al, ok := x.X.(*ssa.Alloc); ok && x.Op == token.MUL {
+				for _, r := range *al.Referrers() {
+					if st, ok := r.(*ssa.Store); ok && st.Addr == al {
+						walk(st.Val, d+1)
+					}
+				}
+			}
+		}
+	}
+	walk(v, 0)
+	return out
+}
